@@ -96,9 +96,6 @@ func runC21(t *testing.T, tp *simrt.Tape, keepTrace bool) hx.Result {
 				wantSet := map[string]int{}
 				w := want
 				g := got
-				if hasBranchesRepos(c.Q) {
-					w, g = stripBranches(w), stripBranches(g)
-				}
 				for _, x := range normFiles(w, false) {
 					wantSet[x]++
 				}
